@@ -14,7 +14,7 @@ def run(tier):
         asis=[("MC_Client_asis_F13a.cfg", "Inv_QuiescentEmpty", "subscribe id kept after unsubscribe (F13a)"),
               ("MC_Client_asis_F13b.cfg", "Inv_QuiescentEmpty", "reserved unsubscribe id kept after a server-side close (F13b)"),
               ("MC_Client_asis_F13c.cfg", "Inv_QuiescentEmpty", "reserved unsubscribe id kept after a refused / malformed / duplicate subscribe answer (F13c)")],
-        groups=["stream", "mixed", "route"], nscen=n)
+        groups=["stream", "tight", "mixed"], nscen=n)
     rep.cov["rule"] = ("design: every interleaving of 1 call + 1 subscription with accepted / refused / malformed / duplicate answers, "
                        "unsubscribe, drop, server close and lag; conformance: in every recorded scenario the harness reads the sizes of "
                        "the client's request / subscription / batch tables (hook H1) whenever the system is settled, and each reading must "
